@@ -32,6 +32,10 @@ def check(run, repo, world):
         "an 8-bit backward frame carries values 0..255",
         "Frame.__add__ puts the left operand in the high bits (C05)"]
     mod = repo.mod(MOD)
+    from ..seq import check_stateless
+    check_stateless(run, "R-SEQ-STATELESS", mod, [
+        (MOD + "." + n_.name, n_) for n_ in mod.tree.body
+        if isinstance(n_, ast.FunctionDef)], 4)
 
     # ---- QueryDeviceTypes -------------------------------------------------
     m, fn, _ = world.func(MOD + ".QueryDeviceTypes")
